@@ -1148,7 +1148,7 @@ pub fn crash_points(sc: &Scenario) -> Vec<CrashPoint> {
 fn inject_msg(ops: &mut [Op], mid: u64, at_end: bool) {
     for o in ops.iter_mut() {
         match o {
-            Op::Tell { m, .. } | Op::TellT { m, .. } | Op::Ask { m, .. } | Op::AskT { m, .. } | Op::AskJoin { m, .. } | Op::TellUs { m, .. } | Op::AskUs { m, .. } => {
+            Op::Tell { m, .. } | Op::TellT { m, .. } | Op::Ask { m, .. } | Op::AskT { m, .. } | Op::AskJoin { m, .. } | Op::TellUs { m, .. } | Op::AskUs { m, .. } | Op::TellSelf { m, .. } => {
                 if m.id == mid {
                     if at_end {
                         m.steps.push(Op::Panic);
